@@ -797,6 +797,7 @@ impl TypeLayout {
             TypeLayout::Class(..) => false,
             TypeLayout::Function(..) => false,
             TypeLayout::Module(..) => false,
+            TypeLayout::Map(..) => false,
             TypeLayout::ValidIndexes(..) => unreachable!(),
             TypeLayout::Void => false,
             _ => true,
